@@ -30,9 +30,14 @@ IsEvent(name) == l <= Len(Rec) /\ Rec[l].ev = name /\ l' = l + 1
 Judge(ok, what) == ok \/ (~Strict /\ PrintT(<< "VIOL", l, what >>))
 Drift(ok, what) == ok \/ PrintT(<< "DRIFT", l, what >>)
 
+\* Vacuity guard: tallies of how many events actually exercised a clause (registers 11..14; the
+\* meaning of each is stated by the trace spec that uses it).  Needs -workers 1.
+TallyInit == TLCSet(11, 0) /\ TLCSet(12, 0) /\ TLCSet(13, 0) /\ TLCSet(14, 0)
+Tally(i, cond) == cond => TLCSet(i, TLCGet(i) + 1)
+
 \* one state per consumed line plus the initial state
 AllConsumed ==
     LET d == TLCGet("stats").diameter
-    IN  IF d = Len(Rec) + 1 THEN PrintT(<< "ACCEPTED", Len(Rec) >>)
+    IN  IF d = Len(Rec) + 1 THEN PrintT(<< "ACCEPTED", Len(Rec) >>) /\ PrintT(<< "TALLY", TLCGet(11), TLCGet(12), TLCGet(13), TLCGet(14) >>)
         ELSE PrintT(<< "REJECTED-AT", d >>) /\ FALSE
 =============================================================================
